@@ -262,6 +262,17 @@ class Result:
     def add_violation(self, replay, found=True):
         self.violations.append((replay, found))
 
+    def report(self, signature, replay, found=True):
+        """Report a violation unless its signature is a listed known finding (then print KNOWN-FINDING)."""
+        for f in known_findings().get("findings", []):
+            if f.get("property") == self.prop and f.get("signature") == signature:
+                msg = f.get("what", signature)
+                if msg not in self.known:
+                    self.known.append(msg)
+                return False
+        self.add_violation(dict(replay, signature=signature), found)
+        return True
+
     def finish(self):
         os.makedirs(os.path.join(VERIF, "evidence"), exist_ok=True)
         os.makedirs(os.path.join(BUILD, "replay"), exist_ok=True)
